@@ -218,7 +218,7 @@ def task_nat(t):
     prog = p.text()
     c = mon(profile)
     t0 = time.time()
-    r = c.evalc(prog, cases, take=4, stream=[None, {"i": "1"}], chunk=64, timeout=timeout, death_budget=10)
+    r = c.evalc(prog, cases, take=4, stream=[None, {"i": "1"}], chunk=64, timeout=timeout, death_budget=6)
     dt = time.time() - t0
     st = judge_evalc(acc, r, prog, cases, profile, f"native {label}: {prog}", 4, stream=[None, {"i": "1"}])
     if st == "compile_error":
@@ -264,7 +264,7 @@ def nat_tasks(progs, run, pool):
     tasks = []
     sizes = collections.Counter()
 
-    def add(p, lists, rn=0, timeout=6.0, limit=None):
+    def add(p, lists, rn=0, timeout=4.0, limit=None):
         if lists:
             lists = [list(l) for l in lists]
             limit = limit or prod_cap
@@ -624,6 +624,13 @@ def task_cli(t):
 
 
 def task(t):
+    t0 = time.time()
+    out = task_(t)
+    out["dt"] = (round(time.time() - t0, 1), str(t[:4])[:120])
+    return out
+
+
+def task_(t):
     k = t[0]
     if k == "nat":
         return task_nat(t)
@@ -838,6 +845,7 @@ def main():
     broken = []
     slow = []
     cli_cand = []
+    task_times = []
     profiles = collections.Counter()
 
     def absorb(out):
@@ -860,6 +868,7 @@ def main():
         broken.extend(out["broken"])
         slow.extend(out["slow"])
         cli_cand.extend(out["cli_candidates"])
+        task_times.append(out.get("dt"))
 
     for out in par.pmap(task, tasks, run.jobs):
         absorb(out)
@@ -923,6 +932,7 @@ def main():
         "exempt_resource_exhaustion_panics": dict(exempt),
         "details": dict(extra),
         "slowest_native_batches": sorted(slow, key=lambda x: -x[1])[:8],
+        "slowest_tasks": sorted([x for x in task_times if x], key=lambda x: -x[0])[:8],
         "profiles": ["verif", "release", "cli(debug)"], "release_slice_tasks": len(rel), "tasks": len(tasks) + len(cli2),
     }
     run.finish(cov, assumptions=[
